@@ -21,21 +21,21 @@ Proof.
 Qed.
 
 Definition trs_ok (s s' : state) : Prop :=
-  (nsorted (map t_group (trs s)) -> map t_group (trs s') = map t_group (trs s)) /\
+  (nsorted (map t_group (trs s)) -> nsorted (map t_group (trs s'))) /\
   (tinv (trs s) -> tinv (trs s')).
+
+Lemma trs_ok_of_eq s s' : (nsorted (map t_group (trs s)) -> map t_group (trs s') = map t_group (trs s)) ->
+  (tinv (trs s) -> tinv (trs s')) -> trs_ok s s'.
+Proof. intros a b. split; [intros H; rewrite (a H); exact H | exact b]. Qed.
 
 Lemma trs_ok_same s s' : trs s' = trs s -> trs_ok s s'.
 Proof. intros H. unfold trs_ok. rewrite H. auto. Qed.
 
 Lemma trs_ok_keeps s s' : keeps s s' -> trs_ok s s'.
-Proof. intros (_&_&_&_&g&p). split; [intros _; exact g | apply p, clamps_closed]. Qed.
+Proof. intros (_&_&_&_&g&p&_). apply trs_ok_of_eq; [intros _; exact g | apply p, clamps_closed]. Qed.
 
 Lemma trs_ok_trans s1 s2 s3 : trs_ok s1 s2 -> trs_ok s2 s3 -> trs_ok s1 s3.
-Proof.
-  intros [a b] [c d]. split.
-  - intros H. rewrite c; [apply a; assumption | rewrite a; assumption].
-  - auto.
-Qed.
+Proof. intros [a b] [c d]. split; auto. Qed.
 
 Definition timer_op (o : op) : Prop :=
   match o with OFailure _ _ | OAdvance _ | ONext => True | _ => False end.
@@ -121,7 +121,7 @@ Proof.
     rewrite ?u1, ?u2, ?u4, ?u5, ?u6, ?u7; simpl.
   - ssplit; auto; try (flg s).
     eapply trs_ok_trans; [| apply trs_ok_same; exact u3].
-    split; simpl; [intros _; apply clear_stats_gmap | apply clear_stats_tinv].
+    apply trs_ok_of_eq; simpl; [intros _; apply clear_stats_gmap | apply clear_stats_tinv].
   - ssplit; auto; try (flg s).
     apply trs_ok_same; exact u3.
 Qed.
@@ -225,7 +225,7 @@ Qed.
 Lemma upd_en_trs_ok id b x :
   trs_ok x (set_trs x (upd (trs x) id (fun y => mkT (t_id y) (t_group y) b (t_busy y) (t_ev y) (t_sc y) (t_fc y) (t_stl y) (t_ftl y) (t_ni y) (t_mi y)))).
 Proof.
-  split; simpl.
+  apply trs_ok_of_eq; simpl.
   - intros _. apply upd_map. reflexivity.
   - apply upd_Forall. intros y Hy. exact Hy.
 Qed.
@@ -275,7 +275,7 @@ Proof. destruct (tracker_disable_facts id) as (a&b&c). apply (quiet_same_fl _ (t
 Lemma case_cycle g : step_ok s (OCycle g).
 Proof.
   eapply quiet; [reflexivity | reflexivity | assumption | auto |].
-  split; simpl; [intros _; apply cycle_gmap | apply cycle_Forall].
+  apply trs_ok_of_eq; simpl; [intros _; apply cycle_gmap | apply cycle_Forall].
 Qed.
 
 Lemma case_stats a b c : step_ok s (OStats a b c).
@@ -309,7 +309,7 @@ Proof.
   assert (Hx : mask_excl (fl x)) by exact Hm.
   destruct (ctl_receive_success_facts lat nn x Hx) as (a&b&c&d).
   assert (Ht : trs_ok s x).
-  { subst x. split; simpl.
+  { subst x. apply trs_ok_of_eq; simpl.
     - intros Hs. rewrite upd_map by reflexivity. rewrite promote_gmap; [apply upd_map; reflexivity |].
       rewrite upd_map by reflexivity. assumption.
     - intros Hi. apply upd_Forall; [intros y Hy; exact Hy |]. apply promote_Forall.
@@ -335,13 +335,13 @@ Proof.
     destruct Hy as [z [E Hz]]. subst y. destruct (Nat.eqb (t_id z) id); [| apply Hi, Hz].
     destruct ivs as [[iv mv] |]; [apply setters_clamp | exact (Hi z Hz)]. }
   simpl. destruct (negb (f_active (fl s))).
-  { ssplit; auto; [split; simpl; auto | apply emits_same; reflexivity]. }
+  { ssplit; auto; [apply trs_ok_of_eq; simpl; auto | apply emits_same; reflexivity]. }
   match goal with |- context [do_timeout ?y] => set (x := y) end.
   assert (Hx : mask_excl (fl x)) by (subst x; flg s).
   destruct (do_timeout_spec x Hx) as (hf & hk & he). rewrite hf.
   assert (G2 : OFailure id ivs <> OSendStop -> stop_inv (fl s) -> stop_inv (fl x)) by (intros _ H; subst x; flg s).
   assert (G3 : trs_ok s (do_timeout x)).
-  { eapply trs_ok_trans; [| apply trs_ok_keeps; exact hk]. split; simpl; auto. }
+  { eapply trs_ok_trans; [| apply trs_ok_keeps; exact hk]. apply trs_ok_of_eq; simpl; auto. }
   assert (G4 : emits (step_site s (OFailure id ivs)) s (do_timeout x)).
   { apply emits_trans with (s2 := x); [apply emits_same; reflexivity |].
     eapply emits_weaken; [| exact he].
@@ -407,6 +407,29 @@ Proof.
       eapply emits_weaken; [| exact e]. intros r (h1&h2&h3). unfold step_site. rewrite h2. auto.
 Qed.
 
+Lemma insert_op_facts g : let s' := insert_op g s in
+  log s' = log s /\ fl s' = fl s /\ trs_ok s s' /\
+  trs s' = insert_tracker (mkT (length (trs s)) g true false EvNone 0 0 0 0 min_normal min_min) (trs s).
+Proof.
+  cbv zeta. unfold insert_op.
+  set (t := mkT (length (trs s)) g true false EvNone 0 0 0 0 min_normal min_min).
+  assert (Ht : trs_ok s (set_trs s (insert_tracker t (trs s)))).
+  { split; simpl.
+    - apply insert_sorted.
+    - intros Hi. unfold tinv in *. rewrite Forall_forall in *. intros y Hy. apply insert_in in Hy.
+      destruct Hy as [E | Hy]; [| apply Hi, Hy]. subst y t.
+      pose proof params_facts as (p1&p2&p3&p4&p5). unfold clamps. simpl. lia. }
+  match goal with |- context [if ?c then _ else if ?d then _ else _] => destruct c; [| destruct d] end.
+  - ssplit; auto.
+  - match goal with |- context [update_timeout 0 ?x] => destruct (update_timeout_same 0 x) as (u1&u2&u3&_) end.
+    rewrite u1, u2, u3. ssplit; auto;
+    try (eapply trs_ok_trans; [exact Ht | apply trs_ok_same; exact u3]).
+  - ssplit; auto.
+Qed.
+
+Lemma case_insert g : step_ok s (OInsert g).
+Proof. destruct (insert_op_facts g) as (a&b&c&_). apply (quiet_same_fl _ (insert_op g s)); auto. Qed.
+
 Lemma step_spec o : step_ok s o.
 Proof.
   destruct o.
@@ -415,7 +438,7 @@ Proof.
   - apply case_start_requesting. - apply case_stop_requesting. - apply case_tracker_enable.
   - apply case_tracker_disable. - apply case_cycle. - apply case_success; right; exact I.
   - apply case_failure. - apply case_advance. - apply case_next. - apply case_stats.
-  - apply case_start. - apply case_stop.
+  - apply case_start. - apply case_stop. - apply case_insert.
 Qed.
 
 End Cases.
